@@ -528,6 +528,10 @@ func eqValue(fr *frame, t types.Type, x, y value) value {
 		}
 		return acc
 	case *types.Pointer:
+		if rx, ok := x.(reflType); ok {
+			ry, ok := y.(reflType)
+			return ok && types.Identical(rx.t, ry.t)
+		}
 		return x.(*value) == y.(*value)
 	case *types.Chan:
 		return x.(*chanVal) == y.(*chanVal)
